@@ -35,7 +35,7 @@ CHECKS = {
    technique="deterministic simulation: seeded configuration-pair and delivery-schedule sampling with a cross-endpoint agreement oracle"),
  "C11": dict(level="exploration", design="§5 C11",
    text="Seeded sampling of arbitrary option-set pairs, including pairs disjoint in exactly one dimension and two-connection histories whose second connection changes policy over shared session stores; a 150-line policy model (set membership and highest common version only) decides whether completion is allowed and, on completion, every negotiated value is read back from both endpoints and from the wire (hellos, ServerKeyExchange curve, key_share group) and checked against both configurations.",
-   note="SRTP/ALPN lists without overlap may legitimately end in failure or in 'nothing selected'; only an out-of-list value is a violation. Signature schemes are not varied yet. 'Fails with an alert' is asserted of the wire (some fatal alert emitted), never of a receiver that may not have got it.",
+   note="SRTP/ALPN lists without overlap may legitimately end in failure or in 'nothing selected'; only an out-of-list value is a violation. Signature schemes are varied for ECDSA certificates (disjoint and overlapping signature_algorithms lists); the scheme actually used is read from the DTLS 1.2 ServerKeyExchange (in DTLS 1.3 CertificateVerify is encrypted, so only completion is judged). 'Fails with an alert' is asserted of the wire (some fatal alert emitted), never of a receiver that may not have got it.",
    technique="deterministic simulation: seeded configuration-pair sampling against an executable policy model, wire-level read-back"),
  "C17": dict(level="exploration", design="§5 C17",
    text="Emission timestamps on the virtual clock (tolerance zero) are compared with the timer law from the first transmission of each endpoint's current flight, through 16 virtual minutes of silence, after a cut-heal-cut sequence that exercises the reset rule, and under an adversary that re-delivers already-received flights with fresh record numbers or garbage; plus never-on-timer rules for cookie requests and finished DTLS 1.2 endpoints and a linear storm bound.",
